@@ -172,7 +172,7 @@ def atoms(family, rng, n):
     if family == "cat":
         return rng.choice("xyz")
     if family == "monoidal":
-        return [rng.choice("xy") for _ in range(n)]
+        return [rng.choice(["x", "y", "x", "y", 2, 3]) for _ in range(n)]      # names may be numbers
     if family == "rigid":
         return [[rng.choice("ab"), rng.choice([0, 0, 0, 1, -1])] for _ in range(n)]
     if family == "tensor":
